@@ -3,13 +3,21 @@
    declarative rules (header_rule, typ_rule, payload_rule, options_rule,
    validator_rule, nodot) in model/JwtSpec.v, the executable model in
    model/Jwt.v and model/Base64url.v; JWK export / import on key material:
-   model/Jwk.v, proofs/JwkProofs.v (section "JWK sets" at the end).
+   model/Jwk.v, proofs/JwkProofs.v (section "JWK sets"); the JSON TEXT layer
+   (bytes -> value, as structpb.Struct.UnmarshalJSON / protojson does it):
+   model/Json.v, proofs/JsonLexProofs.v, proofs/JsonProofs.v (section "JSON
+   text" at the end).
 
    sig_valid (raw MAC / signature verification of one key) and json_parse
-   (structpb JSON parsing) are arbitrary functions: every theorem holds for
-   all of them.  Times: claims in seconds, clock and skew in nanoseconds. *)
+   (structpb JSON parsing) are arbitrary functions: every theorem of the first
+   sections holds for all of them.  The last section instantiates json_parse
+   with the model's own parser of the JSON text (Json.json_parse_text); its
+   only parameter is num, the float64 view of a number literal that is not an
+   integer below 2^53 (those the model converts itself).
+   Times: claims in seconds, clock and skew in nanoseconds. *)
 From Coq Require Import List NArith ZArith Bool.
-From Tink Require Import Bytes Base64url Jwt JwtSpec JwtProofs Jwk JwkProofs.
+From Coq Require String.
+From Tink Require Import Bytes Base64url Jwt JwtSpec JwtProofs Jwk JwkProofs Json JsonLexProofs JsonProofs.
 Import ListNotations.
 Open Scope N_scope.
 
@@ -754,3 +762,454 @@ Section JwkExample.
     split; vm_compute; reflexivity.
   Qed.
 End JwkExample.
+
+(* ================= JSON text ================= *)
+(* json_parse_text num : bytes -> option fields is structpb.Struct.UnmarshalJSON:
+   tokenizer (lex) + consumer of the token sequence (parse_tokens).
+     toks v          the one token sequence that spells the value v
+     nodup_names v   no object inside v (at any depth) has the same name twice
+     jdepth v        nesting depth (a scalar is 1; the members of the top-level
+                     object sit at depth 1 of the budget recursion_limit = 10000)
+     all_ws w        w consists of the bytes 20 09 0A 0D only *)
+
+(* ---- exact acceptance ---- *)
+
+(* a text is accepted with value f  iff  its tokens spell the OBJECT f, no name
+   is repeated in any object of f, and f is within the recursion budget *)
+Theorem C09_json_text_accepted_exactly :
+  forall num s f,
+    json_parse_text num s = Some f <->
+    lex num s = Some (toks (JObj f)) /\ nodup_names (JObj f) = true
+    /\ (jdepth (JObj f) <= recursion_limit)%nat.
+Proof. exact json_parse_text_spec. Qed.
+Print Assumptions C09_json_text_accepted_exactly.
+
+(* fully declarative: spells (JsonLexProofs.v) is the RFC 8259 token grammar -
+   whitespace, the text of a token (tok_text: punctuation, the three literals,
+   a string literal = quote, items of str_item, quote; a number literal =
+   num_spells of a well-formed numlit whose float view exists), a delimiter or
+   the end after a literal or a number - and nothing else *)
+Theorem C09_json_accepted_texts_are_exactly_the_spellings_of_good_objects :
+  forall num s f,
+    json_parse_text num s = Some f <->
+    spells num (toks (JObj f)) s /\ nodup_names (JObj f) = true
+    /\ (jdepth (JObj f) <= recursion_limit)%nat.
+Proof. exact json_text_grammar. Qed.
+Print Assumptions C09_json_accepted_texts_are_exactly_the_spellings_of_good_objects.
+
+(* the tokenizer accepts exactly the texts of the token grammar *)
+Theorem C09_json_tokenizer_accepts_exactly_the_grammar :
+  forall num s ts, lex num s = Some ts <-> spells num ts s.
+Proof. exact lex_grammar. Qed.
+Print Assumptions C09_json_tokenizer_accepts_exactly_the_grammar.
+
+(* the consumer, on ANY token sequence *)
+Theorem C09_json_token_consumer_accepts_exactly_the_spellings :
+  forall ts m,
+    parse_tokens ts = Some m <->
+    ts = toks (JObj m) /\ nodup_names (JObj m) = true /\ (jdepth (JObj m) <= recursion_limit)%nat.
+Proof. exact parse_tokens_spec. Qed.
+Print Assumptions C09_json_token_consumer_accepts_exactly_the_spellings.
+
+(* one spelling, one value (the token grammar is unambiguous and prefix-free) *)
+Theorem C09_json_spelling_determines_the_value :
+  forall v v' r r', toks v ++ r = toks v' ++ r' -> v = v' /\ r = r'.
+Proof. exact toks_inj. Qed.
+Print Assumptions C09_json_spelling_determines_the_value.
+
+(* every accepted text: is valid UTF-8 as a whole, yields only valid UTF-8
+   strings and names, no repeated name at any depth, bounded nesting, and
+   starts (after whitespace) with '{' *)
+Theorem C09_json_accepted_text_shape :
+  forall num s f, json_parse_text num s = Some f ->
+    utf8_valid s = true /\ json_utf8 (JObj f) = true /\ nodup_names (JObj f) = true
+    /\ (jdepth (JObj f) <= recursion_limit)%nat
+    /\ exists t, skip_ws s = 123 :: t.
+Proof. exact json_accepted_shape. Qed.
+Print Assumptions C09_json_accepted_text_shape.
+
+(* ---- what is refused, each for ALL texts ---- *)
+
+Theorem C09_json_invalid_utf8_rejected :
+  forall num s, utf8_valid s = false -> json_parse_text num s = None.
+Proof. exact json_invalid_utf8_rejected. Qed.
+Print Assumptions C09_json_invalid_utf8_rejected.
+
+(* a text that spells (with any whitespace, any escapes) a value in which some
+   object, at any depth, has the same member name twice *)
+Theorem C09_json_duplicate_member_name_rejected_at_any_depth :
+  forall num s v, lex num s = Some (toks v) -> nodup_names v = false -> json_parse_text num s = None.
+Proof. exact json_duplicate_name_rejected. Qed.
+Print Assumptions C09_json_duplicate_member_name_rejected_at_any_depth.
+
+Theorem C09_json_nesting_beyond_the_recursion_limit_rejected :
+  forall num s v, lex num s = Some (toks v) -> (recursion_limit < jdepth v)%nat -> json_parse_text num s = None.
+Proof. exact json_too_deep_rejected. Qed.
+Print Assumptions C09_json_nesting_beyond_the_recursion_limit_rejected.
+
+(* a top-level array, string, number, true / false / null *)
+Theorem C09_json_top_level_must_be_an_object :
+  forall num s,
+    (forall v, lex num s = Some (toks v) -> (forall f, v <> JObj f) -> json_parse_text num s = None)
+    /\ (forall c t, skip_ws s = c :: t -> c <> 123 -> json_parse_text num s = None).
+Proof. intros num s. split; [apply json_top_level_not_object_rejected|apply json_first_byte_rejected]. Qed.
+Print Assumptions C09_json_top_level_must_be_an_object.
+
+(* the empty text and whitespace alone *)
+Theorem C09_json_empty_or_blank_text_rejected :
+  forall num w, all_ws w = true -> json_parse_text num w = None.
+Proof. exact json_blank_rejected. Qed.
+Print Assumptions C09_json_empty_or_blank_text_rejected.
+
+(* an accepted text followed by ANY byte that is not JSON whitespace (and then anything) *)
+Theorem C09_json_trailing_data_rejected :
+  forall num s f c t,
+    json_parse_text num s = Some f -> is_ws c = false -> json_parse_text num (s ++ c :: t) = None.
+Proof. exact json_trailing_data_rejected. Qed.
+Print Assumptions C09_json_trailing_data_rejected.
+
+(* ---- whitespace ---- *)
+
+(* before and after the text: same verdict, same value (also when rejected) *)
+Theorem C09_json_whitespace_around_the_text_is_ignored :
+  forall num w s, all_ws w = true ->
+    json_parse_text num (w ++ s) = json_parse_text num s
+    /\ json_parse_text num (s ++ w) = json_parse_text num s.
+Proof. intros num w s H. split; [apply json_leading_ws|apply json_trailing_ws]; exact H. Qed.
+Print Assumptions C09_json_whitespace_around_the_text_is_ignored.
+
+(* between tokens: s1 is a sequence of whole tokens, s2 may follow its last
+   token directly (a literal or number needs a delimiter) *)
+Theorem C09_json_whitespace_between_tokens_is_ignored :
+  forall num s1 w s2 ts1,
+    lex num s1 = Some ts1 -> ends_ok ts1 s2 = true -> all_ws w = true ->
+    json_parse_text num (s1 ++ w ++ s2) = json_parse_text num (s1 ++ s2).
+Proof. exact json_ws_between_tokens. Qed.
+Print Assumptions C09_json_whitespace_between_tokens_is_ignored.
+
+(* the tokenizer itself: trailing whitespace, and whitespace as a separator *)
+Theorem C09_json_tokens_and_whitespace :
+  forall num,
+    (forall s w, all_ws w = true -> lex num (s ++ w) = lex num s)
+    /\ (forall w s, all_ws w = true -> lex num (w ++ s) = lex num s)
+    /\ (forall s1 w s2 ts1, all_ws w = true -> w <> [] -> lex num s1 = Some ts1 ->
+          lex num (s1 ++ w ++ s2) = match lex num s2 with Some ts2 => Some (ts1 ++ ts2) | None => None end).
+Proof.
+  intros num. split; [apply lex_trailing_ws|]. split; [intros w s H; apply lex_skip_ws; exact H|apply lex_ws_between].
+Qed.
+Print Assumptions C09_json_tokens_and_whitespace.
+
+(* the four whitespace bytes, and only they *)
+Theorem C09_json_whitespace_bytes :
+  forall c, is_ws c = true <-> c = 32 \/ c = 9 \/ c = 10 \/ c = 13.
+Proof. exact is_ws_spec. Qed.
+Print Assumptions C09_json_whitespace_bytes.
+
+(* ---- strings and numbers ---- *)
+
+(* the grammar of a string literal, declaratively: the text between the quotes
+   is a sequence of items (str_item: an unescaped ASCII byte from 0x20 on other
+   than quote and backslash; one well-formed 2-, 3- or 4-byte UTF-8 character;
+   backslash + one of quote backslash / b f n r t; \uXXXX with four hex digits
+   that is not a surrogate; a high-surrogate escape directly followed by a
+   low-surrogate escape), and it denotes the concatenation of what the items
+   stand for.  The string lexer accepts EXACTLY that. *)
+Theorem C09_json_string_literal_grammar :
+  forall s o r,
+    lex_string s = Some (o, r) <-> exists body, s = body ++ 34 :: r /\ str_body body o.
+Proof. exact lex_string_grammar. Qed.
+Print Assumptions C09_json_string_literal_grammar.
+
+(* a string token reads exactly up to its closing quote, does not depend on
+   what follows, reads valid UTF-8 and yields valid UTF-8 *)
+Theorem C09_json_string_token_is_local :
+  forall s o r, lex_string s = Some (o, r) ->
+    exists pre, s = pre ++ r /\ last pre 0 = 34 /\ pre <> []
+      /\ utf8_valid pre = true /\ utf8_valid o = true
+      /\ (forall y, lex_string (pre ++ y) = Some (o, y))
+      /\ exists body, pre = body ++ [34] /\ str_body body o.
+Proof. exact lex_string_local. Qed.
+Print Assumptions C09_json_string_token_is_local.
+
+(* the grammar of a number literal: optional '-', then "0" or a non-zero digit
+   and digits, an optional '.' with one or more digits, an optional e / E with an
+   optional sign and one or more digits; followed by a delimiter or the end *)
+Theorem C09_json_number_literal_grammar :
+  forall s l r,
+    lex_number s = Some (l, r) <->
+    exists txt, s = txt ++ r /\ num_spells l txt /\ lit_ok l /\ delim_next r = true.
+Proof. exact lex_number_grammar. Qed.
+Print Assumptions C09_json_number_literal_grammar.
+
+(* every valid UTF-8 string is read back from its escaped form *)
+Theorem C09_json_escaped_string_reads_back :
+  forall s rest, utf8_valid s = true -> lex_string (escape s ++ 34 :: rest) = Some (s, rest).
+Proof. intros s rest H. apply lex_string_escape. exact H. Qed.
+Print Assumptions C09_json_escaped_string_reads_back.
+
+(* the exact path: the decimal text of an integer of magnitude < 2^53 is the
+   number token of that integer, whatever the float oracle says *)
+Theorem C09_json_integers_below_2_53_need_no_oracle :
+  forall num z, (Z.abs z < 9007199254740992)%Z -> lex num (print_zint z) = Some [TNum z []].
+Proof. intros num z H. apply lex_print_zint. apply Z.ltb_lt. exact H. Qed.
+Print Assumptions C09_json_integers_below_2_53_need_no_oracle.
+
+(* the parse is a function of the text and of the float view of the inexact literals only *)
+Theorem C09_json_parse_is_a_function_of_the_text :
+  forall num1 num2 s, (forall l, num1 l = num2 l) -> json_parse_text num1 s = json_parse_text num2 s.
+Proof. exact json_parse_text_ext. Qed.
+Print Assumptions C09_json_parse_is_a_function_of_the_text.
+
+(* ---- print, then parse ---- *)
+
+(* for every object in the printer's domain (strings and names valid UTF-8, no
+   repeated names, numbers = integers below 2^53, nesting within the budget) *)
+Theorem C09_json_print_then_parse :
+  forall num f, printable (JObj f) = true -> json_parse_text num (json_print_text f) = Some f.
+Proof. exact json_print_parse_roundtrip. Qed.
+Print Assumptions C09_json_print_then_parse.
+
+Theorem C09_json_printed_text_is_a_byte_string :
+  forall v, json_utf8 v = true -> nums_exact v = true -> wfb (print_value v).
+Proof. exact print_value_wfb. Qed.
+Print Assumptions C09_json_printed_text_is_a_byte_string.
+
+(* ---- the C09 theorems from TEXT ---- *)
+
+(* C09_verify_accepts_exactly_the_rule_conforming_tokens with the JSON parser
+   in place: the header and payload bytes must SPELL duplicate-free objects
+   within the recursion budget; no JSON parameter is left *)
+Theorem C09_text_verify_accepts_exactly_the_rule_conforming_tokens :
+  forall num (sig_valid : N -> bytes -> bytes -> bool) keys o tok r,
+    verify sig_valid (json_parse_text num) keys o tok = Some (VOk r) <->
+    exists v, options_rule o v /\
+    exists h p s sg hb pb hdr,
+      tok = h ++ dot :: p ++ dot :: s
+      /\ nodot h /\ nodot p /\ nodot s
+      /\ b64_decode s = Some sg /\ sg <> []
+      /\ b64_decode h = Some hb
+      /\ (lex num hb = Some (toks (JObj hdr)) /\ nodup_names (JObj hdr) = true
+          /\ (jdepth (JObj hdr) <= recursion_limit)%nat)
+      /\ b64_decode p = Some pb
+      /\ (lex num pb = Some (toks (JObj (r_payload r))) /\ nodup_names (JObj (r_payload r)) = true
+          /\ (jdepth (JObj (r_payload r)) <= recursion_limit)%nat)
+      /\ (exists k, In k keys /\ kenabled k = true
+                    /\ sig_valid (kref k) sg (h ++ dot :: p) = true /\ header_rule k hdr)
+      /\ typ_rule hdr (r_typ r)
+      /\ payload_rule (r_payload r)
+      /\ validator_rule v (r_typ r) (r_payload r).
+Proof. exact verify_text_iff. Qed.
+Print Assumptions C09_text_verify_accepts_exactly_the_rule_conforming_tokens.
+
+(* JWKSetToPublicKeysetHandle from the TEXT of the set *)
+Theorem C09_text_jwk_import_accepts_exactly :
+  forall num on_curve s l,
+    jwk_import_text num on_curve s = Some l <->
+    exists f vs,
+      (lex num s = Some (toks (JObj f)) /\ nodup_names (JObj f) = true
+       /\ (jdepth (JObj f) <= recursion_limit)%nat)
+      /\ lookup s_keys f = Some (JArr vs) /\ vs <> []
+      /\ Forall2 (jwk_key_rule on_curve) vs l.
+Proof. exact jwk_import_text_spec. Qed.
+Print Assumptions C09_text_jwk_import_accepts_exactly.
+
+(* text that is not accepted JSON; "keys" missing or not a list; empty list; one bad key *)
+Theorem C09_text_jwk_import_rejections :
+  forall num on_curve s,
+    (json_parse_text num s = None -> jwk_import_text num on_curve s = None)
+    /\ (forall f, json_parse_text num s = Some f ->
+          (forall l, lookup s_keys f <> Some (JArr l)) -> jwk_import_text num on_curve s = None)
+    /\ (forall f, json_parse_text num s = Some f ->
+          lookup s_keys f = Some (JArr []) -> jwk_import_text num on_curve s = None)
+    /\ (forall f vs v, json_parse_text num s = Some f -> lookup s_keys f = Some (JArr vs) -> In v vs ->
+          import_key on_curve v = None -> jwk_import_text num on_curve s = None).
+Proof. exact jwk_import_text_rejections. Qed.
+Print Assumptions C09_text_jwk_import_rejections.
+
+Theorem C09_text_jwk_import_handle_shape :
+  forall num on_curve ids s pks,
+    jwk_import_text num on_curve s = Some pks -> length ids = length pks ->
+    exists ks, jwk_import_handle_text num on_curve ids s = Some (ks, last ids 0)
+      /\ map e_key ks = map KPub pks /\ map e_id ks = ids
+      /\ Forall (fun en => e_status en = Enabled) ks.
+Proof. exact jwk_import_handle_text_shape. Qed.
+Print Assumptions C09_text_jwk_import_handle_shape.
+
+(* C09_encode_then_verify_round_trips with the model's own printer and parser:
+   the two JSON laws (parse (print f) = Some f; the printed text is a byte
+   string) are theorems now.  What remains of them is that the payload at
+   hand lies in the printer's domain, a decidable condition on the claims;
+   the header always does. *)
+Theorem C09_text_encode_then_verify_round_trips :
+  forall num (sig_valid : N -> bytes -> bytes -> bool) (sign : N -> bytes -> bytes),
+    (forall kr m, sig_valid kr (sign kr m) m = true) ->
+    (forall kr m, wfb (sign kr m)) ->
+    (forall kr m, sign kr m <> []) ->
+    forall keys k o v ro r tok,
+      new_raw_jwt ro = Some r ->
+      printable (JObj (r_payload r)) = true ->
+      In k keys -> kenabled k = true ->
+      encode json_print_text sign k r = Some tok ->
+      new_validator o = Some v -> validate v r = true ->
+      verify sig_valid (json_parse_text num) keys o tok = Some (VOk r).
+Proof. intros num sv sg S1 S2 S3 keys k o v ro r tok. apply (encode_verify_roundtrip_text num sv sg); assumption. Qed.
+Print Assumptions C09_text_encode_then_verify_round_trips.
+
+(* ---- non-vacuity and concrete texts ---- *)
+Section JsonExample.
+  (* a float oracle that refuses everything: only the exact path is left *)
+  Import String JsonStrings.   (* string literals, in this section only *)
+  Let num0 (l : numlit) : option (Z * bytes) := None.
+  Let parse := json_parse_text num0.
+  Let a : bytes := [97].
+
+  (* nested objects and arrays, every simple escape, \u escapes, a surrogate
+     pair, raw UTF-8, whitespace of all four kinds, negative zero *)
+  Example C09_json_concrete_texts :
+    parse (bs " { ""a"" : [ 1 , -0, {""b"":""\""\\\/\b\f\n\r\té😀""} ],"
+           ++ [10; 9; 13] ++ bs """c"":null,"""":[[],{}],""k"":true}")
+    = Some [(a, JArr [JNum 1 []; JNum 0 [];
+                      JObj [([98], JStr [34; 92; 47; 8; 12; 10; 13; 9; 195; 169; 240; 159; 152; 128])]]);
+            ([99], JNull); ([], JArr [JArr []; JObj []]); ([107], JBool true)]
+    (* raw two-, three- and four-byte characters *)
+    /\ parse (bs "{""a"":""" ++ [195; 169; 226; 130; 172; 240; 159; 152; 128] ++ bs """}")
+       = Some [(a, JStr [195; 169; 226; 130; 172; 240; 159; 152; 128])]
+    (* duplicate names: at depth 1, at depth 3, spelled with an escape *)
+    /\ parse (bs "{""a"":1,""a"":2}") = None
+    /\ parse (bs "{""x"":[{""k"":1,""k"":1}]}") = None
+    /\ parse (bs "{""a"":1,""a"":2}") = None
+    /\ parse (bs "{""a"":1,""A"":2}") = Some [(a, JNum 1 []); ([65], JNum 2 [])]
+    (* trailing data / trailing whitespace *)
+    /\ parse (bs "{}x") = None /\ parse (bs "{}{}") = None /\ parse (bs "{} ,") = None
+    /\ parse (bs "{}" ++ [32; 10; 13; 9]) = Some []
+    (* form feed, vertical tab, a byte order mark are not whitespace *)
+    /\ parse (12 :: bs "{}") = None /\ parse (bs "{}" ++ [11]) = None /\ parse (239 :: 187 :: 191 :: bs "{}") = None
+    (* the top level *)
+    /\ parse (bs "[]") = None /\ parse (bs """a""") = None /\ parse (bs "1") = None /\ parse (bs "null") = None
+    /\ parse [] = None
+    (* invalid UTF-8, lone surrogates, a raw control character, bad escapes *)
+    /\ parse (bs "{""a"":""" ++ [255] ++ bs """}") = None
+    /\ parse (bs "{""a"":""" ++ [237; 160; 128] ++ bs """}") = None
+    /\ parse (bs "{""a"":""\ud83d""}") = None /\ parse (bs "{""a"":""\ude00\ud83d""}") = None
+    /\ parse (bs "{""a"":""" ++ [9] ++ bs """}") = None
+    /\ parse (bs "{""a"":""\x41""}") = None /\ parse (bs "{""a"":""\u12G4""}") = None
+    (* number syntax *)
+    /\ parse (bs "{""a"":01}") = None /\ parse (bs "{""a"":+1}") = None /\ parse (bs "{""a"":1.}") = None
+    /\ parse (bs "{""a"":.5}") = None /\ parse (bs "{""a"":1e}") = None /\ parse (bs "{""a"":NaN}") = None
+    /\ parse (bs "{""a"":-9007199254740991}") = Some [(a, JNum (-9007199254740991) [])]
+    (* outside the exact path the float oracle decides (this one refuses) *)
+    /\ parse (bs "{""a"":1.5}") = None /\ parse (bs "{""a"":9007199254740992}") = None
+    /\ json_parse_text (fun _ => Some (1%Z, [49; 46; 53])) (bs "{""a"":1.5e0}") = Some [(a, JNum 1 [49; 46; 53])]
+    (* structure *)
+    /\ parse (bs "{""a"":[1,]}") = None /\ parse (bs "{""a"":1,}") = None /\ parse (bs "{""a"" 1}") = None
+    /\ parse (bs "{""a"":nul}") = None /\ parse (bs "{""a"":truex}") = None /\ parse (bs "{a:1}") = None.
+  Proof. repeat split; vm_compute; reflexivity. Qed.
+
+  (* the recursion budget: 9999 nested arrays under a member are accepted, 10000 are not *)
+  Example C09_json_recursion_limit_both_sides :
+    is_some (parse (bs "{""a"":" ++ repeat 91 (N.to_nat 9999) ++ repeat 93 (N.to_nat 9999) ++ [125])) = true
+    /\ parse (bs "{""a"":" ++ repeat 91 (N.to_nat 10000) ++ repeat 93 (N.to_nat 10000) ++ [125]) = None
+    /\ parse (bs "{""a"":" ++ repeat 91 (N.to_nat 9998) ++ [49] ++ repeat 93 (N.to_nat 9998) ++ [125]) <> None
+    /\ parse (bs "{""a"":" ++ repeat 91 (N.to_nat 9999) ++ [49] ++ repeat 93 (N.to_nat 9999) ++ [125]) = None.
+  Proof.
+    split; [vm_compute; reflexivity|]. split; [vm_compute; reflexivity|].
+    split; [|vm_compute; reflexivity].
+    intros H. assert (X : is_some (parse (bs "{""a"":" ++ repeat 91 (N.to_nat 9998) ++ [49] ++ repeat 93 (N.to_nat 9998) ++ [125])) = true)
+      by (vm_compute; reflexivity). rewrite H in X. discriminate.
+  Qed.
+
+  (* the premises of the conditional theorems are met by real texts *)
+  Example C09_json_nonvacuous :
+    (* duplicate-name theorem: a text that spells a value with a repeated name *)
+    (lex num0 (bs "{""a"":1, ""a"":2}") = Some (toks (JObj [(a, JNum 1 []); (a, JNum 2 [])]))
+     /\ nodup_names (JObj [(a, JNum 1 []); (a, JNum 2 [])]) = false)
+    (* top-level theorem: a text that spells an array *)
+    /\ lex num0 (bs "[1]") = Some (toks (JArr [JNum 1 []]))
+    (* trailing-data theorem *)
+    /\ (parse (bs "{""a"":1}") = Some [(a, JNum 1 [])] /\ is_ws 120 = false)
+    (* whitespace between tokens: the split before a number's digits end is NOT a boundary *)
+    /\ (lex num0 (bs "{""a"":1") = Some [TLBrace; TStr a; TColon; TNum 1 []]
+        /\ ends_ok [TLBrace; TStr a; TColon; TNum 1 []] (bs "}") = true
+        /\ ends_ok [TLBrace; TStr a; TColon; TNum 1 []] (bs "2}") = false
+        /\ parse (bs "{""a"":1" ++ bs " " ++ bs "2}") <> parse (bs "{""a"":1" ++ bs "2}"))
+    (* print-then-parse: a value with escapes, raw UTF-8, a negative number, nesting *)
+    /\ (let f := [(a, JArr [JNum (-12) []; JStr [10; 34; 92; 195; 169; 0; 127]; JObj [([], JNull)]; JArr []]);
+                  ([195; 169], JBool false)] in
+        printable (JObj f) = true /\ parse (json_print_text f) = Some f
+        /\ json_print_text f = bs "{""a"":[-12,""\u000a\""\\" ++ [195; 169] ++ bs "\u0000" ++ [127] ++ bs """,{"""":null},[]],""" ++ [195; 169] ++ bs """:false}")
+    (* outside the domain: a repeated name prints, but does not parse back *)
+    /\ (printable (JObj [(a, JNull); (a, JNull)]) = false
+        /\ parse (json_print_text [(a, JNull); (a, JNull)]) = None).
+  Proof.
+    split; [split; vm_compute; reflexivity|].
+    split; [vm_compute; reflexivity|].
+    split; [split; vm_compute; reflexivity|].
+    split.
+    { split; [vm_compute; reflexivity|]. split; [vm_compute; reflexivity|]. split; [vm_compute; reflexivity|].
+      vm_compute. discriminate. }
+    split; [cbv zeta; split; [vm_compute; reflexivity|]; split; vm_compute; reflexivity|].
+    split; vm_compute; reflexivity.
+  Qed.
+
+  (* a token from text: header {"alg":"HS256"}, payload {"exp":1700003600,"aud":["a"]}
+     with whitespace and an escaped name; the same token with a duplicated "exp" *)
+  Let k := mkKey 7 true (bs "HS256") KIgnored.
+  Let sig_valid (kr : N) (sg m : bytes) : bool := beq sg (kr :: m).
+  Let o := mkV None None None true true true false false 0%Z 1700000000000000000%Z None.
+  Let tok (payload : bytes) : bytes :=
+    let u := b64_encode (bs "{""alg"":""HS256""}") ++ [dot] ++ b64_encode payload in
+    u ++ [dot] ++ b64_encode (7 :: u).
+
+  Example C09_text_verify_nonvacuous :
+    verify sig_valid parse [k] o (tok (bs " {""exp"" : 1700003600, ""aud"":[""a""]}"))
+    = Some (VOk (mkRaw None [([101; 120; 112], JNum 1700003600 []); ([97; 117; 100], JArr [JStr a])]))
+    /\ verify sig_valid parse [k] o (tok (bs "{""exp"":1700003600,""aud"":[""a""],""exp"":1700003600}")) = Some VGeneric
+    /\ verify sig_valid parse [k] o (tok (bs "{""exp"":1700003600}x")) = Some VGeneric
+    /\ verify sig_valid parse [k] o (tok (bs "[{""exp"":1700003600}]")) = Some VGeneric.
+  Proof. repeat split; vm_compute; reflexivity. Qed.
+
+  (* the round-trip theorem: a signer / verifier pair that obeys the three
+     laws for ALL arguments, a raw JWT with every registered claim kind and a
+     nested custom claim, boundaries of exp and nbf at once; the conclusion is
+     obtained FROM the theorem (all its premises are met), and the token text
+     is what one expects *)
+  Let sign2 (kr : N) (m : bytes) : bytes := map (fun x => x mod 256) (kr :: m).
+  Let sig_valid2 (kr : N) (sg m : bytes) : bool := beq sg (sign2 kr m).
+  Let kt := mkKey 7 true (bs "HS256") (KTink 16909060).
+  Let ro := mkRO (Some (bs "JWT")) None (Some [[97]; [98]]) None (Some [105]) None
+                 None (Some 1700003600%Z) (Some 1700000000%Z) false
+                 (Some [([99], JArr [JBool true; JStr [195; 169; 34]; JNum (-5) []; JObj [([], JNull)]])]).
+  Let ov := mkV (Some (bs "JWT")) (Some [105]) (Some [98]) false false false false false
+                5000000000%Z 1699999995000000000%Z None.
+
+  (* (no existential variables here: vm_compute would normalise the function
+     bodies of this section that an evar's context carries) *)
+  Let r0 := match new_raw_jwt ro with Some r => r | None => mkRaw None [] end.
+  Let tok0 := match encode json_print_text sign2 kt r0 with Some t => t | None => [] end.
+
+  Example C09_text_round_trip_nonvacuous :
+    new_raw_jwt ro = Some r0
+    /\ printable (JObj (r_payload r0)) = true
+    /\ encode json_print_text sign2 kt r0 = Some tok0
+    /\ new_validator ov = Some ov /\ validate ov r0 = true
+    /\ verify sig_valid2 parse [kt] ov tok0 = Some (VOk r0)
+    /\ json_print_text (r_payload r0)
+       = bs "{""iss"":""i"",""nbf"":1700000000,""exp"":1700003600,""aud"":[""a"",""b""],""c"":[true,""" ++ [195; 169]
+         ++ bs "\"""",-5,{"""":null}]}".
+  Proof.
+    assert (H1 : new_raw_jwt ro = Some r0) by (vm_compute; reflexivity).
+    assert (H2 : printable (JObj (r_payload r0)) = true) by (vm_compute; reflexivity).
+    assert (H3 : encode json_print_text sign2 kt r0 = Some tok0) by (vm_compute; reflexivity).
+    assert (H4 : new_validator ov = Some ov) by (vm_compute; reflexivity).
+    assert (H5 : validate ov r0 = true) by (vm_compute; reflexivity).
+    split; [exact H1|]. split; [exact H2|]. split; [exact H3|]. split; [exact H4|]. split; [exact H5|].
+    split; [|vm_compute; reflexivity].
+    apply (C09_text_encode_then_verify_round_trips num0 sig_valid2 sign2) with (k := kt) (ro := ro) (v := ov);
+      try assumption.
+    - intros kr m. unfold sig_valid2. apply beq_refl.
+    - intros kr m. unfold sign2. apply Forall_forall. intros x Hx. apply in_map_iff in Hx.
+      destruct Hx as [y [<- _]]. apply N.mod_lt. discriminate.
+    - intros kr m. unfold sign2. discriminate.
+    - left. reflexivity.
+  Qed.
+End JsonExample.
